@@ -41,7 +41,7 @@ def main():
             print('unknown property; have: ' + ' '.join(sorted(C.CHECKS)))
             return 2
         tier = 'thorough' if a.tier == 'thorough' else 'quick'
-        return C.CHECKS[a.prop](tier, seed)
+        return C.run_check(a.prop, tier, seed)
     except B.BuildError as e:
         print('BUILD-ERROR (harness/infrastructure, not a verdict):\n' + str(e)[-4000:])
         return 2
